@@ -15,10 +15,15 @@
 (*   InvPath      ValueAtPath(tree, PathOf(n)) is n (for a key: the value  *)
 (*                the key names) -- holds only WITHOUT duplicate keys:     *)
 (*                MC_Locate_dup.cfg (AllowDup = TRUE) must violate it      *)
+(*   InvImpl      (JSON) the implementation-shaped transcription of         *)
+(*                locate.rs (LocateImpl.tla: IB rank -> node, parent walk   *)
+(*                with count_siblings_before / find_key_for_value) returns  *)
+(*                NodeAt / PathOf on every qualifying offset;               *)
+(*                MC_Locate_implmut.cfg (`<` -> `<=`) must violate it       *)
 (* Yaml = TRUE: the root is the virtual array of documents, collections    *)
 (* may be virtual (block style: no brackets), containers do not qualify.   *)
 (***************************************************************************)
-EXTENDS Locate, TLC
+EXTENDS LocateImpl, TLC
 
 CONSTANTS MaxNodes,   \* value nodes per document (stream)
           MaxGap,     \* whitespace bytes per document
@@ -179,4 +184,19 @@ InvReach ==
           IN \A i \in 1..Len(T) :
                (T[i].s >= 0 /\ (CQ \/ T[i].role = "key" \/ ~IsCont(T[i].own)))
                  => \E off \in 0..(pos - 1) : i \in HitSet(T, off, CQ)
+
+\* JSON: the implementation-shaped locate refines the abstract one on qualifying offsets
+InvImpl ==
+  (Done /\ ~Yaml) =>
+     LET T == Tokens(root)
+         F == Flat(root)
+     IN /\ Len(F) = Len(T)
+        /\ \A off \in 0..(pos - 1) :
+             Qualifies(T, off, TRUE) =>
+               LET k == NodeAt(T, off, TRUE)
+                   i == ImplFind(F, pos, off)
+               IN /\ i > 0
+                  /\ F[i].s = k.s /\ F[i].e = k.e
+                  /\ (F[i].t = "key") = (k.role = "key")
+                  /\ ImplPath(F, i) = k.path
 =============================================================================
